@@ -1,8 +1,10 @@
 """C17 - solver subprocess lifecycle is safe under every schedule (engine E3; spec/Executor.tla).
 
 1. TLC: exhaustive safety for 1-2 jobs (3 jobs in thorough), liveness under weak fairness, mutated models
-   (negative controls of the invariants), and the as-stated invariants that the code does NOT satisfy
-   (expected violations -> counterexample schedules).
+   (negative controls of the invariants), the as-stated invariants that the code does NOT satisfy
+   (cancel-before-popen, join-raises-job-exception: expected violations -> counterexample schedules), and the
+   PreFix configurations (order of submit()/_join() before commit 929919f): TLC must find the
+   submit-shutdown-toctou counterexample there, and the repaired code must REFUSE to follow it.
 2. spec -> code: schedules from TLC (every <=1-preemption schedule of one job, random schedules of 2-3
    jobs, the counterexamples) are replayed into the real PopenExecutor/PopenFuture (and through
    halmos.solve.solve_low_level) under the deterministic scheduler of harness/sched.py; state and enabled
@@ -30,33 +32,40 @@ LIVENESS = {"quick": ["MC_Executor_live_1.cfg", "MC_Executor_live_2q.cfg"],
 MUTANTS = {  # cfg -> text that must appear in TLC's verdict
     "MC_ExecMut_set_result_twice.cfg": "ResultAtMostOnce",
     "MC_ExecMut_result_ignores_exc.cfg": "TimeoutIsUnknown",
-    "MC_ExecMut_cancel_skips.cfg": "QuiescentUnlessRace",
+    "MC_ExecMut_cancel_skips.cfg": "QuiescentUnlessCbp",
     "MC_ExecMut_lost_result.cfg": "WaitReturns",
     "MC_ExecMut_no_check.cfg": "RejectAfterFlag",
 }
 RACES = {  # cfg -> invariant of the property as stated, violated by the code as written
     "MC_Executor_race_quiescent.cfg": "QuiescentAfterShutdown",
-    "MC_Executor_race_accept.cfg": "NoAcceptAfterShutdown",
-    "MC_Executor_race_toctou.cfg": "NoToctouWitness",
     "MC_Executor_race_cbp.cfg": "NoCancelBeforePopenWitness",
-    "MC_Executor_race_waitquiescent.cfg": "QuiescentAfterShutdownWait",
     "MC_Executor_race_joinraise.cfg": "NoJoinRaiseWitness",
+}
+PREFIX = {  # negative control: order of the code before commit 929919f -> the toctou counterexample
+    "MC_Executor_prefix_toctou.cfg": "NoToctouWitness",
+    "MC_Executor_prefix_accept.cfg": "NoAcceptAfterShutdown",
+    "MC_Executor_prefix_wait.cfg": "NoToctouWaitWitness",
 }
 BUDGET = {
     "quick": {"pb": ("MC_ExecSched_pb1.cfg", 400), "sim": [("MC_ExecSched_sim2.cfg", 300)], "solve_every": 4,
               "real": 24},
-    "thorough": {"pb": ("MC_ExecSched_pb2.cfg", 20000), "sim": [("MC_ExecSched_sim2.cfg", 4000),
-                                                                ("MC_ExecSched_sim3.cfg", 4000)],
+    "thorough": {"pb": ("MC_ExecSched_pb2.cfg", 6000), "sim": [("MC_ExecSched_sim2.cfg", 3000),
+                                                                ("MC_ExecSched_sim3.cfg", 3000)],
                  "solve_every": 4, "real": 120},
 }
 
+# JVM start-up dominates the many small TLC runs: C1 only, few GC/compiler threads (measured 8.7 s -> 1.8 s)
+SMALL_JVM = {"JAVA_TOOL_OPTIONS": "-XX:ParallelGCThreads=2 -XX:TieredStopAtLevel=1 -XX:CICompilerCount=1"}
+BIG_JVM = {"JAVA_TOOL_OPTIONS": "-XX:ParallelGCThreads=4"}
+TRACE_CAP = {"quick": 16, "thorough": 80}  # real-run event logs validated by Trace_Executor.tla (~30k states each)
+
 WHAT = {
     "submit-shutdown-toctou": (
-        "PopenExecutor.submit tests the shutdown flag outside the lock: a submit that passed the test before "
-        "shutdown(wait=False) set the flag is registered and started AFTER shutdown returned; nobody cancels it"),
+        "REGRESSION of commit 929919f: a job was registered/started after shutdown() had returned (the shutdown "
+        "flag is not tested under the executor lock)"),
     "submit-shutdown-toctou:wait": (
-        "same race with shutdown(wait=True): the job is registered after _join() took its snapshot, so "
-        "shutdown returns while its process runs"),
+        "REGRESSION of commit 929919f: a job was registered after _join() took its snapshot, shutdown(wait=True) "
+        "returned while its process runs"),
     "cancel-before-popen": (
         "PopenFuture.cancel is a no-op while self.process is None: shutdown(wait=False) cancels a registered job "
         "whose worker thread has not yet executed Popen, returns, and the process starts afterwards"),
@@ -71,30 +80,38 @@ WHAT = {
 # TLC phase
 
 
-def tlc_phase(chk: Check, tier: str, work: Path) -> dict:
+def tlc_run(tier: str, seed: int, work: Path):
+    """Start every TLC job (no bookkeeping on chk: runs in a background thread)."""
     b = BUDGET[tier]
     jobs, tags = [], []
 
+    big = {"MC_Executor_2.cfg", "MC_Executor_3.cfg", "MC_Executor_live_2q.cfg", "MC_Executor_live_2.cfg",
+           "MC_ExecSched_pb2.cfg"}
+
     def add(tag, module, cfg, **kw):
         tags.append((tag, cfg))
-        jobs.append(dict(module=module, cfg=cfg, **kw))
+        jobs.append(dict(module=module, cfg=cfg, env=BIG_JVM if cfg in big else SMALL_JVM, **kw))
 
     for cfg in SAFETY[tier]:
         add("safety", "Executor", cfg, coverage=True, workers=8 if cfg != "MC_Executor_1.cfg" else 2,
             heap="6g" if cfg == "MC_Executor_3.cfg" else None)
     for cfg in LIVENESS[tier]:
         add("live", "Executor", cfg, workers=4 if cfg != "MC_Executor_live_1.cfg" else 2)
+    add("pb", "ExecSched", b["pb"][0], workers=4)
+    for i, (cfg, n) in enumerate(b["sim"]):
+        add("sim", "ExecSched", cfg, workers=1,
+            extra=["-simulate", f"num={n}", "-depth", "400", "-seed", str(1 + seed * 7 + i), "-aril", "0"])
     for cfg in MUTANTS:
         add("mutant", "ExecMut", cfg, workers=1, expect_violation=True)
     for cfg in RACES:
         add("race", "Executor", cfg, workers=1, expect_violation=True)
-    add("pb", "ExecSched", b["pb"][0], workers=4)
-    for i, (cfg, n) in enumerate(b["sim"]):
-        add("sim", "ExecSched", cfg, workers=1,
-            extra=["-simulate", f"num={n}", "-depth", "400", "-seed", str(1 + chk.seed * 7 + i), "-aril", "0"])
-    results = xt.run_many(jobs, work, parallel=10 if tier == "quick" else 8)
+    for cfg in PREFIX:
+        add("prefix", "Executor", cfg, workers=1, expect_violation=True)
+    return tags, xt.run_many(jobs, work, parallel=12 if tier == "quick" else 8)
 
-    out = {"pb": [], "sim": [], "race": {}}
+
+def tlc_account(chk: Check, tags, results) -> dict:
+    out = {"pb": [], "sim": [], "race": {}, "prefix": {}}
     cov_total: dict[str, int] = {}
     tlc_log = []
     for (tag, cfg), r in zip(tags, results):
@@ -123,9 +140,14 @@ def tlc_phase(chk: Check, tier: str, work: Path) -> dict:
                     out["race"][cfg] = None
                     continue
                 raise MachineryError(f"{cfg}: expected {RACES[cfg]} to be violated, TLC said {r.violated!r}")
-            mode, steps = xt.trace_to_schedule(xt.parse_error_trace(r.stdout))
-            out["race"][cfg] = (mode, steps)
+            out["race"][cfg] = xt.trace_to_schedule(xt.parse_error_trace(r.stdout))
             chk.count("model_violations_of_property_as_stated")
+        elif tag == "prefix":
+            if r.violated != PREFIX[cfg]:
+                raise MachineryError(f"negative control {cfg}: the pre-fix order must violate {PREFIX[cfg]}, "
+                                     f"TLC said {r.violated!r}")
+            out["prefix"][cfg] = xt.trace_to_schedule(xt.parse_error_trace(r.stdout))
+            chk.count("negative_controls_rejected")
         else:
             if r.violated:
                 raise MachineryError(f"{cfg}: {r.violated}\n{r.stdout[-2000:]}")
@@ -160,19 +182,19 @@ def _sig(steps) -> str:
 
 
 def classify(kind: str, j: str, facts: dict) -> str:
-    """Stable key of a property-level observation made on the real objects."""
-    late = facts.get("appended_with_flag", {}).get(j)
+    """Stable key of a property-level observation made on the real objects (facts come from the real run)."""
+    after_return = facts.get("appended_after_return", {}).get(j)
     early = facts.get("cancel_found_no_process", {}).get(j)
-    if kind in ("running-after-shutdown-nowait", "accepted-after-shutdown-returned"):
-        if late:
+    if kind == "accepted-after-shutdown-returned":
+        return "submit-shutdown-toctou"  # repaired by 929919f: a NEW violation if it re-appears
+    if kind == "running-after-shutdown-nowait":
+        if after_return:
             return "submit-shutdown-toctou"
-        if early:
-            return "cancel-before-popen"
-        return "running-after-shutdown:unexplained"
+        return "cancel-before-popen" if early else "running-after-shutdown:unexplained"
     if kind == "running-after-shutdown-wait:returned":
-        return "submit-shutdown-toctou:wait" if late else "running-after-shutdown-wait:unexplained"
+        return "submit-shutdown-toctou:wait" if after_return else "running-after-shutdown-wait:unexplained"
     if kind == "running-after-shutdown-wait:raised":
-        return "submit-shutdown-toctou:wait" if late else "join-raises-job-exception"
+        return "submit-shutdown-toctou:wait" if after_return else "join-raises-job-exception"
     return kind  # delivered-twice, timeout-seen-as-result, solver-timeout-reported-as-unsat, ...
 
 
@@ -206,6 +228,48 @@ def replay_one(chk: Check, consts: dict, mode: str, steps: list, *, origin: str,
     return res
 
 
+def prefix_controls(chk: Check, tl: dict):
+    """The toctou counterexamples of the PRE-FIX model: the repaired code must refuse to follow them; the same
+    harness with the old submit() substituted follows them and shows the violation (so the refusal is due to
+    the code, not to the harness)."""
+    from harness import sched
+
+    def submit_prefix(self, future):  # submit() as it was before commit 929919f
+        if self._shutdown.is_set():
+            raise sched.P.ShutdownError()
+        with self._lock:
+            self._futures.append(future)
+            future.start()
+            return future
+
+    for cfg, (mode, steps) in tl["prefix"].items():
+        consts = xt.cfg_constants(cfg)
+        kw = dict(has_timeout=consts["HasTimeout"], ignores_term=consts["IgnoresTerm"])
+        rep = {"origin": f"pre-fix counterexample of {PREFIX[cfg]} ({cfg})", "jobs": consts["Jobs"],
+               "has_timeout": consts["HasTimeout"], "ignores_term": consts["IgnoresTerm"], "mode": mode,
+               "schedule": xt.labels(steps), "steps": steps}
+        try:
+            res = sched.replay_schedule(consts["Jobs"], mode, steps, **kw)
+        except sched.Divergence as d:
+            chk.count("negative_controls_rejected")
+            chk.cov.setdefault("negative_controls", {})["prefix-schedule:" + cfg] = f"refused by the code: {d.kind}"
+        else:
+            # the real code followed the pre-fix schedule state by state: the race is back
+            key = "submit-shutdown-toctou:wait" if mode == "wait" else "submit-shutdown-toctou"
+            rep["observations"] = res.observations
+            chk.violation(key, f"{WHAT[key]} [the code follows the pre-fix schedule {' '.join(xt.labels(steps))}]", rep)
+            continue
+        if mode == "wait":
+            continue  # the old _join() is not substituted
+        res = sched.replay_schedule(consts["Jobs"], mode, steps, submit_override=submit_prefix, **kw)
+        keys = {classify(k, j, res.facts) for k, j, _ in res.observations}
+        if "submit-shutdown-toctou" not in keys:
+            raise MachineryError(f"{cfg}: with the old submit() substituted the harness did not show the toctou "
+                                 f"violation (saw {sorted(keys)})")
+        chk.count("negative_controls_rejected")
+        chk.cov["negative_controls"]["old-submit-follows:" + cfg] = "followed, toctou observed"
+
+
 def replay_phase(chk: Check, tier: str, work: Path, tl: dict):
     b = BUDGET[tier]
     rnd = random.Random(104729 * chk.seed + 5)
@@ -226,6 +290,7 @@ def replay_phase(chk: Check, tier: str, work: Path, tl: dict):
                 # the monitor must have seen it
                 raise MachineryError(f"{cfg}: schedule replayed without divergence but the real objects do not "
                                      f"show the violation")
+    prefix_controls(chk, tl)
     # 2. every schedule with bounded preemptions (sampled down to the budget), 3. random schedules
     n = 0
     for tag in ("pb", "sim"):
@@ -323,11 +388,12 @@ def negative_controls(chk: Check, tl: dict, work: Path):
 # real subprocesses
 
 
-def trace_phase(chk: Check, runs, work: Path):
+def trace_phase(chk: Check, runs, work: Path, tier: str):
     """Event logs of the real runs must be behaviours of Executor.tla (spec/Trace_Executor.tla)."""
     from harness import exec_real as xr
     from harness.common import run_tlc
 
+    runs = runs[:TRACE_CAP[tier]]
     traces = [xr.to_trace(r) for r in runs]
     controls = xr.corrupt_traces(traces)
     if len(controls) < 3:
@@ -335,10 +401,11 @@ def trace_phase(chk: Check, runs, work: Path):
     allt = traces + [c for _, c in controls]
     f = work / "c17_traces.json"
     f.write_text(json.dumps(allt))
-    r = run_tlc("Trace_Executor", "MC_Trace_Executor.cfg", work=work, env={"C17_TRACES": str(f)}, workers=8)
+    r = run_tlc("Trace_Executor", "MC_Trace_Executor.cfg", work=work, workers=8,
+                env={"C17_TRACES": str(f), **BIG_JVM})
     if r.violated:
         raise MachineryError(f"Trace_Executor: {r.violated}\n{r.stdout[-2000:]}")
-    chk.add_tlc(r)
+    # (not added to the states/transitions of the evidence: the size depends on the timing of the real runs)
     acc = {x["tid"] for x in r.records if "n" in x}
     for k, (run, t) in enumerate(zip(runs, traces), 1):
         if k in acc:
@@ -377,7 +444,7 @@ def real_phase(chk: Check, tier: str, work: Path):
                                                 "events": r.events[:200]})
         if r.scenario["idx"] < 3:
             chk.sample({"real_scenario": r.scenario, "seen": r.seen, "counts": r.counts})
-    trace_phase(chk, runs, work)
+    trace_phase(chk, runs, work, tier)
     chk.cov["real_runs"] = {"n": n, "wall_s": round(time.time() - t0, 1), "timing_dependent_observations": agg,
                             "max_dead_after_s": max((r.counts.get("dead_after_s", 0) for r in runs), default=0)}
     # negative control: a wrapper that delivers twice must be flagged by the judgement
@@ -427,12 +494,21 @@ def run(chk: Check, tier: str):
         finally:
             phases[name] = round(time.time() - t0, 1)
 
+    from concurrent.futures import ThreadPoolExecutor
+
     try:
-        tl = timed("tlc", tlc_phase, chk, tier, work)
+        # TLC runs in subprocesses: start all of it in the background and use the wait for the real-subprocess
+        # and stub-solver runs (whose verdicts do not depend on timing: margins of tens of seconds)
+        with ThreadPoolExecutor(max_workers=1) as bg:
+            t0 = time.time()
+            fut = bg.submit(tlc_run, tier, chk.seed, work / "tlc")
+            timed("real_subprocesses", real_phase, chk, tier, work)
+            timed("solve_low_level", solve_phase, chk, work)
+            tags, results = fut.result()
+            phases["tlc_total"] = round(time.time() - t0, 1)
+        tl = tlc_account(chk, tags, results)
         timed("replay", replay_phase, chk, tier, work, tl)
         timed("negative_controls", negative_controls, chk, tl, work)
-        timed("real_subprocesses", real_phase, chk, tier, work)
-        timed("solve_low_level", solve_phase, chk, work)
     finally:
         cleanup(work)
     chk.cov["rule"] = (
